@@ -201,6 +201,9 @@ class DirectoryCleanupProgress(object):
                 return False
             if current is None:
                 return False
+            if old.isdigit() and current.isdigit():
+                # level directories of the tms layout are not zero padded: '10' comes after '2'
+                old, current = int(old), int(current)
             if old < current:
                 return False
             if old > current:
